@@ -15,13 +15,13 @@ SPEC = dict(
     assumptions=['no handle object is ever used by two threads (the property\'s precondition); only payloads are shared',
                  'volatile reference counters are modelled as acquire/release for TSan (DESIGN.md 2.3); a report must recur to count'],
     jobs=[
-        job('ptr-seq', 'h_refcount', 'ptr-seq', sources=SRC, cases={Q: 48000, T: 800000}, procs=16, probes=['RefCount.Ptr.swap/different-payloads']),
-        job('conc-tsan', 'h_refcount', 'conc', variant='tsan', sources=SRC, cases={Q: 960, T: 16000}, procs=16, timeout={Q: 900, T: 3000}, deadlock=True),
-        job('conc-asan', 'h_refcount', 'conc', variant='asan', sources=SRC, cases={Q: 1920, T: 32000}, procs=16, timeout={Q: 900, T: 3000}, deadlock=True),
-        job('conc-plain', 'h_refcount', 'conc', variant='plain', sources=SRC + ['interpose/ledger.cpp'], cflags=['-DVERIF_LEDGER'], cases={Q: 6400, T: 96000}, procs=16, timeout={Q: 900, T: 3000}, deadlock=True),
-        job('duel-tsan', 'h_refcount', 'duel', variant='tsan', sources=SRC, cases={Q: 64, T: 1600}, procs=16, weight=4, timeout={Q: 900, T: 3000}, deadlock=True),
-        job('duel-asan', 'h_refcount', 'duel', variant='asan', sources=SRC, cases={Q: 128, T: 3200}, procs=16, weight=4, timeout={Q: 900, T: 3000}, deadlock=True),
-        job('duel-plain', 'h_refcount', 'duel', variant='plain', sources=SRC + ['interpose/ledger.cpp'], cflags=['-DVERIF_LEDGER'], cases={Q: 256, T: 6400}, procs=16, weight=4, timeout={Q: 900, T: 3000}, deadlock=True),
+        job('ptr-seq', 'h_refcount', 'ptr-seq', sources=SRC, cases={Q: 96000, T: 800000}, procs=16, probes=['RefCount.Ptr.swap/different-payloads']),
+        job('conc-tsan', 'h_refcount', 'conc', variant='tsan', sources=SRC, cases={Q: 1920, T: 16000}, procs=16, timeout={Q: 900, T: 3000}, deadlock=True),
+        job('conc-asan', 'h_refcount', 'conc', variant='asan', sources=SRC, cases={Q: 3840, T: 32000}, procs=16, timeout={Q: 900, T: 3000}, deadlock=True),
+        job('conc-plain', 'h_refcount', 'conc', variant='plain', sources=SRC + ['interpose/ledger.cpp'], cflags=['-DVERIF_LEDGER'], cases={Q: 12800, T: 96000}, procs=16, timeout={Q: 900, T: 3000}, deadlock=True),
+        job('duel-tsan', 'h_refcount', 'duel', variant='tsan', sources=SRC, cases={Q: 128, T: 1600}, procs=16, weight=4, timeout={Q: 900, T: 3000}, deadlock=True),
+        job('duel-asan', 'h_refcount', 'duel', variant='asan', sources=SRC, cases={Q: 256, T: 3200}, procs=16, weight=4, timeout={Q: 900, T: 3000}, deadlock=True),
+        job('duel-plain', 'h_refcount', 'duel', variant='plain', sources=SRC + ['interpose/ledger.cpp'], cflags=['-DVERIF_LEDGER'], cases={Q: 512, T: 6400}, procs=16, weight=4, timeout={Q: 900, T: 3000}, deadlock=True),
     ],
     floors={Q: dict(ops=6000000, in_place_modifications=600000, mailbox_exchanges=60000, op_swap=300000, ledger_freed_blocks_poison_verified=300000, duel_rounds=400000, op_assign_raw_of_held=100000, **{'set:duel_release_paths': 6}),
             T: dict(ops=40000000, in_place_modifications=4000000, mailbox_exchanges=400000, op_swap=2000000, ledger_freed_blocks_poison_verified=2000000)},
